@@ -20,6 +20,8 @@ pub enum FsOp {
     MergeCap(usize),
     /// `reserve_regions` for a temporary region holding the given values
     ResRegs(Vec<U>),
+    /// `FlatStack::reserve_items` for the given values (by reference)
+    ResItems(Vec<U>),
     /// serde_json round trip of the whole FlatStack; continue with the deserialised stack
     Serde,
     Observe,
@@ -42,6 +44,7 @@ pub fn parse_fs_op(s: &str) -> Result<FsOp, String> {
         ["withcap", n] => FsOp::WithCap(usize::from_str_radix(n, 16).map_err(|e| e.to_string())?),
         ["mergecap", n] => FsOp::MergeCap(usize::from_str_radix(n, 16).map_err(|e| e.to_string())?),
         ["resregs", l] => FsOp::ResRegs(list(l)?),
+        ["resitems", l] => FsOp::ResItems(list(l)?),
         ["serde"] => FsOp::Serde,
         ["observe"] => FsOp::Observe,
         _ => return Err(format!("bad fs op {s}")),
@@ -168,6 +171,14 @@ where
                     fs.reserve_regions(std::iter::once(&tmp));
                 }) {
                     Some(()) => out.push(U::None),
+                    None => stop!(PANIC),
+                },
+            },
+            FsOp::ResItems(us) => match us.iter().map(R::of_u).collect::<Option<Vec<_>>>() {
+                None => stop!(ILL),
+                Some(vs) => match caught(|| R::try_fs_reserve_items(&mut fs, &vs)) {
+                    Some(true) => out.push(U::None),
+                    Some(false) => stop!(ILL),
                     None => stop!(PANIC),
                 },
             },
